@@ -1,12 +1,13 @@
 // C05 — reconfiguring the live server never races with, crashes or stalls DNS
 // serving.  Two engines over the same scenario bodies (DESIGN.md §2.3, §2.4, §4 C05):
-//   E2: preemption-bounded exhaustive exploration of the interleavings of a
-//       request body with an admin/background body under a cooperative
-//       scheduler hooked into sync/atomic (deadlock, livelock, panic,
-//       well-formed response);
-//   E4: the same pairs run free under the Go race detector in a -race build
-//       (data races are invisible to E2, whose hand-offs are happens-before
-//       edges).
+//
+//	E2: preemption-bounded exhaustive exploration of the interleavings of a
+//	    request body with an admin/background body under a cooperative
+//	    scheduler hooked into sync/atomic (deadlock, livelock, panic,
+//	    well-formed response);
+//	E4: the same pairs run free under the Go race detector in a -race build
+//	    (data races are invisible to E2, whose hand-offs are happens-before
+//	    edges).
 package main
 
 import (
@@ -25,10 +26,13 @@ import (
 	"sync"
 	"time"
 
+	"net/netip"
+
 	"github.com/AdguardTeam/AdGuardHome/internal/filtering"
 	"github.com/AdguardTeam/AdGuardHome/internal/verifx/lib"
 	"github.com/AdguardTeam/AdGuardHome/internal/verifx/srv"
 	vsync "github.com/AdguardTeam/AdGuardHome/verifx/vsync"
+	"github.com/AdguardTeam/dnsproxy/proxy"
 	"github.com/miekg/dns"
 )
 
@@ -577,11 +581,152 @@ func phaseQueue(c *lib.Ctx) {
 	}
 }
 
+// listOps: life-cycle operations on the one block list of the assembly.
+var listOps = []string{"disable", "enable", "refresh", "remove", "add", "edit-file"}
+
+type listCase struct {
+	Engine  string   `json:"engine"`
+	History []string `json:"history"`
+}
+
+// runListHistory executes a history of list operations through the real API
+// handlers; after every step the rules in force must be those of the lists that
+// are present and enabled: a name of the list is blocked exactly then.
+func runListHistory(tmp string, h []string) (vkey, vdesc string, engineErr string) {
+	a, err := build(tmp, false)
+	if err != nil {
+		return "", "", "assembly: " + err.Error()
+	}
+	defer a.close()
+	u := filepath.Join(a.dir, "lists", "block.txt")
+	present, enabled, extra := true, true, false
+	for i, step := range h {
+		var code int
+		var body string
+		switch step {
+		case "disable", "enable":
+			if !present {
+				continue
+			}
+			code, body = a.call("POST", "/control/filtering/set_url", fmt.Sprintf(`{"url":%q,"whitelist":false,"data":{"name":"block","url":%q,"enabled":%v}}`, u, u, step == "enable"))
+			if code == 200 {
+				enabled = step == "enable"
+			}
+		case "refresh":
+			code, body = a.call("POST", "/control/filtering/refresh", `{"whitelist":false}`)
+		case "remove":
+			if !present {
+				continue
+			}
+			code, body = a.call("POST", "/control/filtering/remove_url", fmt.Sprintf(`{"url":%q,"whitelist":false}`, u))
+			if code == 200 {
+				present = false
+			}
+		case "add":
+			if present {
+				continue
+			}
+			code, body = a.call("POST", "/control/filtering/add_url", fmt.Sprintf(`{"name":"block","url":%q,"whitelist":false}`, u))
+			if code == 200 {
+				present, enabled = true, true
+			}
+		case "edit-file":
+			// The source of the list gains a rule; it takes effect with the next
+			// successful fetch only, which the reference does not predict: the
+			// probe name below is in both versions.
+			extra = !extra
+			txt := "||blocked.test^\n||bad-target.test^\n"
+			if extra {
+				txt += "||extra.test^\n"
+			}
+			_ = os.WriteFile(u, []byte(txt), 0o644)
+			continue
+		}
+		if code >= 500 {
+			return "list-operation-failed:" + step, fmt.Sprintf("%s answered %d: %s (history %v)", step, code, body, h[:i+1]), ""
+		}
+		for {
+			ran, ierr := a.filter.VerifRunPendingInit()
+			if ierr != nil {
+				return "engine-rebuild-failed", ierr.Error(), ""
+			}
+			if !ran {
+				break
+			}
+		}
+		a.up.Reset()
+		resp, _, rerr := handle(a, &proxy.DNSContext{Req: mkReq(21, "blocked.test", dns.TypeA), Proto: proxy.ProtoUDP, Addr: netip.MustParseAddrPort("192.168.1.5:5555"), RequestID: uint64(1000 + i)})
+		if rerr != nil || resp == nil {
+			return "list-history-request-failed", fmt.Sprintf("request after %v failed: %v", h[:i+1], rerr), ""
+		}
+		asked := len(a.up.Reset())
+		blocked := asked == 0 && len(resp.Answer) == 1 && strings.Contains(resp.Answer[0].String(), "0.0.0.0")
+		want := present && enabled
+		if blocked != want {
+			what := "is forwarded to the upstream although its list is present and enabled"
+			if blocked {
+				what = "is still blocked although its list is disabled or removed"
+			}
+			return "rules-in-force-differ-from-enabled-lists:" + map[bool]string{true: "stale-block", false: "missed-block"}[blocked],
+				fmt.Sprintf("after the list operations %v a query for blocked.test %s (upstream calls %d, answer %v)", h[:i+1], what, asked, resp.Answer), ""
+		}
+	}
+	return "", "", ""
+}
+
+// phaseLists enumerates every history of list operations up to a depth.
+func phaseLists(c *lib.Ctx) {
+	depth := 4
+	if !c.Quick() {
+		depth = 6
+	}
+	idx := 0
+	var rec func(h []string)
+	stop := false
+	rec = func(h []string) {
+		if stop {
+			return
+		}
+		if len(h) == depth { // every prefix is judged on the way
+			idx++
+			if c.Mine(idx) {
+				if c.Expired() {
+					stop = true
+					c.NotExhaustive("list histories: time budget")
+					return
+				}
+				c.Count("evals", 1)
+				c.Count("list_histories", 1)
+				c.Distinct("nontrivial", "lists|"+strings.Join(h, ","))
+				k, d, eerr := runListHistory(c.TmpDir, h)
+				switch {
+				case eerr != "":
+					c.EngineError(eerr)
+					stop = true
+				case k != "":
+					c.Violation(k, d, listCase{Engine: "lists", History: append([]string{}, h...)})
+				}
+				if idx%97 == 0 {
+					c.Sample(listCase{Engine: "lists", History: append([]string{}, h...)})
+				}
+			}
+		}
+		if len(h) == depth {
+			return
+		}
+		for _, o := range listOps {
+			rec(append(h, o))
+		}
+	}
+	rec(nil)
+}
+
 func run(c *lib.Ctx) {
 	srv.Quiet()
 	if c.ShardI == 0 {
 		phaseQueue(c)
 	}
+	phaseLists(c)
 	// Half of the shards explore schedules, the other half run the race pass.
 	half := c.ShardN / 2
 	if half == 0 {
@@ -613,6 +758,20 @@ func replay(c *lib.Ctx, raw json.RawMessage) string {
 	var cs caseC
 	if err := json.Unmarshal(raw, &cs); err != nil {
 		return err.Error()
+	}
+	if cs.Engine == "lists" {
+		var lc listCase
+		if err := json.Unmarshal(raw, &lc); err != nil {
+			return err.Error()
+		}
+		k, d, eerr := runListHistory(c.TmpDir, lc.History)
+		if eerr != "" {
+			return "engine: " + eerr
+		}
+		if k != "" {
+			return k + ": " + d
+		}
+		return ""
 	}
 	scs := scenarios(cs.Quick)
 	si := -1
@@ -693,7 +852,7 @@ func main() {
 				"race_cells":                    m.Distinct["race_cells"],
 				"race_runs":                     m.Counters["race_runs"],
 				"race_reports":                  m.Counters["race_reports"],
-				"rule": fmt.Sprintf("scenario matrix = every one of %d request bodies x every one of %d admin/background bodies, every background body x every admin body (thorough: plus request x background x admin triples), on a full assembly wired as in package home (server, filter with file lists, client storage, query log, statistics on bbolt). E2: every scenario explored under a cooperative scheduler that owns every sync/atomic operation of the rewritten packages (RWMutex with writer preference), iterative preemption bounding 0,1 (quick) / 0,1,2 (thorough); oracle per execution: no panic, no deadlock/livelock, well-formed response, operation did not fail, queued engine rebuild works. 'states'/'transitions' report scheduling points visited (stateless search keeps no state set). E4: every scenario x both start orders x K runs free-running in a -race build; the verdict inside a cell is the race detector's happens-before analysis of the observed execution, not an enumeration of schedules.", len(requests), len(operations)),
+				"rule":                          fmt.Sprintf("scenario matrix = every one of %d request bodies x every one of %d admin/background bodies, every background body x every admin body (thorough: plus request x background x admin triples), on a full assembly wired as in package home (server, filter with file lists, client storage, query log, statistics on bbolt). E2: every scenario explored under a cooperative scheduler that owns every sync/atomic operation of the rewritten packages (RWMutex with writer preference), iterative preemption bounding 0,1 (quick) / 0,1,2 (thorough); oracle per execution: no panic, no deadlock/livelock, well-formed response, operation did not fail, queued engine rebuild works. 'states'/'transitions' report scheduling points visited (stateless search keeps no state set). E4: every scenario x both start orders x K runs free-running in a -race build; the verdict inside a cell is the race detector's happens-before analysis of the observed execution, not an enumeration of schedules.", len(requests), len(operations)),
 			}
 		},
 		Assumptions: []string{"data races are decided by the Go race detector on free runs of the exhaustively enumerated scenario matrix (not by schedule enumeration)", "the scheduler sees interleavings only at sync/atomic operations of the rewritten AdGuardHome packages and bbolt; goroutines the code spawns itself are replaced by explicit bodies", "DHCP lease operations are not in the matrix"},
